@@ -39,7 +39,7 @@ func init() {
 		Doc:      "writer protocol (functions that create the LockFilePath file and no read-lock file): the create is reachable only through the not-exists edges of a LockExists and of an RLockExists test; after the create every return that is not an error has passed a second RLockExists test; the exists edge of that test releases the new lock file and returns an error",
 		Controls: []string{"CtlLockWithoutRecheck"},
 		Run:      ruleLock2})
-	Register(&Rule{ID: "R-LOCK-3", Props: []string{"C09"}, Floor: 3,
+	Register(&Rule{ID: "R-LOCK-3", Props: []string{"C09", "C11"}, Floor: 3,
 		Doc:      "reader protocol (functions that create an RLockFilePath file): the create is preceded by a LockExists test whose exists edge cannot reach it, it executes only where the create of the LockFilePath file is known to have succeeded, and every exit after that create releases the transient lock file (directly or by a defer)",
 		Controls: []string{"CtlRLockWithoutLock"},
 		Run:      ruleLock3})
